@@ -324,6 +324,7 @@ def one_sequence(acc, ctl, shim, base, ops, dirs, cid, with_subprocess, with_for
     marks = []
     ctl.n = 0
     ctl.die_at = None
+    ctl.dead = False
     ctl.record = True
     ctl.log = []
     ctl.armed = True
